@@ -278,3 +278,7 @@ def run(prop: str, tier_: str) -> int:
         "promised, original unchanged (reference encoding snapshot before/after); also the four record classes; distinct = distinct non-trivial instances",
         floor_ok,
     )
+
+
+def replay(prop: str, path: str) -> int:
+    return common.replay_by_rerun(prop, path, run)
